@@ -14,8 +14,8 @@
    (a conformant message the reader decodes, without error, to a different value), and the positive theorem carries
    the hypothesis that names the excluded class. *)
 From HV Require Import Base.Prelude Base.Outcome Base.Bytes Spec.Parse Spec.Format Spec.FormatMsg
-  Model.CodecMsg Model.CodecType Model.CodecLink Model.CodecAttr Model.CodecSuper
-  Proofs.ReaderSpecBase Proofs.ReaderSpecDataspace Proofs.ReaderSpecLayout Proofs.ReaderSpecLink Proofs.ReaderSpecSuper Proofs.ReaderSpecAttr Proofs.ReaderSpecType Proofs.ReaderSpecAttrFrame Proofs.ReaderSpecSuperOk Proofs.ReaderSpecInfo Proofs.ReaderSpecTypeAll.
+  Model.CodecMsg Model.CodecType Model.CodecLink Model.CodecAttr Model.CodecSuper Model.CodecAttrRepaired Model.CodecSuperRepaired
+  Proofs.ReaderSpecBase Proofs.ReaderSpecDataspace Proofs.ReaderSpecLayout Proofs.ReaderSpecLink Proofs.ReaderSpecSuper Proofs.ReaderSpecAttr Proofs.ReaderSpecType Proofs.ReaderSpecAttrFrame Proofs.ReaderSpecSuperOk Proofs.ReaderSpecInfo Proofs.ReaderSpecTypeAll Proofs.ReaderSpecSuperRepaired.
 
 (* ------------------------------------------------------------------ dataspace (versions 1 and 2; scalar, simple, null;
    maximum extents).  The reader is not told the size of lengths: it infers 8- or 4-byte extents from the message length.
@@ -222,3 +222,54 @@ Theorem C06_reader_attrinfo_padded_refuted :
     Ok {| ai_version := 0; ai_flags := 1; ai_heap := 562949953421312000; ai_btname := 0; ai_maxcidx := 5; ai_btorder := 0 |}.
 Proof. exact attrinfo_padded_refuted. Qed.
 Print Assumptions C06_reader_attrinfo_padded_refuted.
+
+(* ------------------------------------------------------------------ attribute message version 2 for the REPAIRED reader
+   (Model/CodecAttrRepaired.v: dec_attribute_gen true is the tied model dec_attribute, by reflexivity; dec_attribute_gen false
+   is the code with notes/fixes/c06-attribute-v2-padding.patch): the statement refuted above holds once version 2 is no
+   longer padded. *)
+Theorem C06_reader_attribute_gen_is_current : forall (bigendian : bool) (data : bytes),
+  dec_attribute_gen true bigendian data = dec_attribute bigendian data.
+Proof. exact dec_attribute_gen_current. Qed.
+Print Assumptions C06_reader_attribute_gen_is_current.
+
+Theorem C06_reader_attribute_v2_repaired : forall (lsz : nat) (pad_ok : bool) (bs : bytes) (a : attribute_spec) (tg : list tag),
+  bytes_ok bs = true -> blen bs < 65536 ->
+  lsz = 4%nat \/ lsz = 8%nat ->
+  spec_dec_attribute strict lsz pad_ok bs = Ok (a, tg) ->
+  index bs 0 = Ok 2 ->
+  simple_rank0 (as_space a) = false ->
+  err_or (at_agree a) (dec_attribute_gen false false bs).
+Proof. exact attribute_v2_repaired_reader_spec. Qed.
+Print Assumptions C06_reader_attribute_v2_repaired.
+
+(* ------------------------------------------------------------------ superblock for the REPAIRED reader
+   (Model/CodecSuperRepaired.v: dec_superblock_gen false is the tied model dec_superblock, by reflexivity;
+   dec_superblock_gen true is the code with notes/fixes/c06-superblock-sizes.patch): for EVERY size of offsets / lengths
+   the format allows - no hypothesis on the sizes any more. *)
+Theorem C06_reader_superblock_gen_is_current : forall (file : bytes),
+  dec_superblock_gen false file = dec_superblock file.
+Proof. exact dec_superblock_gen_current. Qed.
+Print Assumptions C06_reader_superblock_gen_is_current.
+
+Theorem C06_reader_superblock_v2_v3_repaired : forall (bs : bytes) (s : superblock_spec) (tg : list tag) (r : bytes),
+  spec_dec_superblock strict bs = Ok (s, tg, r) ->
+  sbs_version s = 2 \/ sbs_version s = 3 ->
+  err_or (sb_agree s) (dec_superblock_gen true bs).
+Proof. exact superblock_v23_repaired_reader_spec. Qed.
+Print Assumptions C06_reader_superblock_v2_v3_repaired.
+
+Theorem C06_reader_superblock_v0_repaired : forall (bs : bytes) (s : superblock_spec) (tg : list tag) (r : bytes),
+  spec_dec_superblock strict bs = Ok (s, tg, r) ->
+  sbs_version s = 0 ->
+  err_or (sb_agree s) (dec_superblock_gen true bs).
+Proof. exact superblock_v0_repaired_reader_spec. Qed.
+Print Assumptions C06_reader_superblock_v0_repaired.
+
+(* the three refutation witnesses under the repaired reader
+   (views: version, size of offsets, size of lengths, base, root, cached B-tree, cached heap) *)
+Theorem C06_reader_superblock_repaired_witnesses :
+  repaired_view sb2_witness_8_4 = Ok (2, 8, 4, 0, 48, 0, 0) /\
+  repaired_view sb2_witness_4_4 = Ok (3, 4, 4, 0, 48, 0, 0) /\
+  repaired_view sb0_witness_4 = Ok (0, 4, 4, 0, 96, 136, 680).
+Proof. exact superblock_repaired_witnesses. Qed.
+Print Assumptions C06_reader_superblock_repaired_witnesses.
